@@ -1,7 +1,7 @@
 """Per-property exploration: which harness runs, what is compared, which oracle clauses count."""
 import os, sys, json, random, glob, collections, multiprocessing, time
 VERIF = os.path.dirname(os.path.dirname(os.path.abspath(__file__)))
-from harness import common, l1, store_oracle, tbuffer, tfleet, storeq, factory, factory_oracle
+from harness import common, l1, store_oracle, tbuffer, tfleet, belt, storeq, factory, factory_oracle
 
 # fields of a row whose disagreement (model vs implementation) concerns each store-level property
 L1_FIELDS = {
@@ -16,12 +16,16 @@ L1_SIZES = {"quick": 400, "thorough": 40000}
 
 
 def matches_finding(k, v):
-    """a listed finding suppresses a violation only if it names the same class and the same clause"""
+    """a listed finding suppresses a violation only if it names the same class and the same clause
+    (one of several clauses when the finding lists them)"""
     m = k.get("match", {})
     if m.get("kind") and m["kind"] != v.get("class"):
         return False
-    if m.get("clause") and m["clause"] not in v.get("message", ""):
-        return False
+    cl = m.get("clause")
+    if cl:
+        cls = cl if isinstance(cl, list) else [cl]
+        if not any(c in v.get("message", "") for c in cls):
+            return False
     return bool(m)
 
 
@@ -286,6 +290,97 @@ def run_c14(pid, tier, seed):
     return res
 
 
+def _belt_tag(c):
+    return "%s/%s" % (c["kind"], "acc" if c["acc"] else "nonacc")
+
+
+def _belt_worker(args):
+    pid, n, seed, corpus, odd = args
+    rng = random.Random(seed)
+    cases = list(corpus) + [belt.gen_case(rng) for _ in range(n)]
+    if odd:
+        cases += [belt.gen_odd_length(rng) for _ in range(max(8, n // 20))]
+    out = dict(evals=0, tags=collections.Counter(), sigs=set(), dis=[], viol=[], samples=[], ops=collections.Counter())
+    for lo in range(0, len(cases), 300):
+        for r in belt.run_batch(cases[lo:lo + 300]):
+            c = r["case"]
+            out["evals"] += 1
+            kinds = [o[0] for o in r["ops"]]
+            tg = {_belt_tag(c)}
+            if "INT" in kinds:
+                tg.add("interrupted")
+            if "RESUME" in kinds:
+                tg.add("resumed")
+            if any(st[1].startswith("STALLED") for st in r["states"]):
+                tg.add("stalled")
+            if len(c["producers"]) > 1:
+                tg.add("two-producers")
+            if any(o[0] == "RSV" and not o[3] for o in r["ops"]):
+                tg.add("entry-refused")
+            if c.get("odd_length"):
+                tg.add("odd-length")
+            out["tags"].update(tg)
+            out["ops"].update(kinds)
+            out["sigs"].add((c["kind"], c["acc"], tuple(sorted(tg)), tuple(k for k in kinds if k != "IDLE")))
+            if r["dis"] and not c.get("odd_length"):
+                j, op, a, b = r["dis"]
+                out["dis"].append(dict(case=c, op_index=j, op=op, impl=a, model=b))
+            seen = set()
+            for prop, clause, msg in belt.oracle(c, r):
+                if prop != pid or (c.get("odd_length") and clause not in ("capacity", "exact-travel", "min-travel")):
+                    continue
+                tagc = "[%s/%s%s]" % (_belt_tag(c), "odd-length/" if c.get("odd_length") else "", clause)
+                if tagc not in seen:
+                    seen.add(tagc)
+                    out["viol"].append(dict(**{"class": "belt"}, message=tagc + " " + msg, case=c))
+            if not out["samples"] and "resumed" in tg:
+                out["samples"].append(dict(case=c, first_ops=[list(o) for o in r["ops"][:25]]))
+    out["sigs"] = len(out["sigs"])
+    # keep one violation per clause (the shortest case)
+    best = {}
+    for v in out["viol"]:
+        k = v["message"].split("]")[0]
+        if k not in best or len(json.dumps(v["case"])) < len(json.dumps(best[k]["case"])):
+            best[k] = v
+    out["viol"], out["dis"] = list(best.values()), out["dis"][:3]
+    return out
+
+
+def run_belt(pid, tier, seed):
+    """the real conveyors (continuous / slotted, accumulating or not) under the real kernel with
+    producer and consumer processes; every recorded step replayed on the extracted timed belt model
+    TBelt; C12 / C13 clauses evaluated on the implementation's own record of the run"""
+    n = 1600 if tier == "quick" else 64000
+    shards = 16
+    corpus = load_corpus("tbelt", None)
+    jobs = [(pid, n // shards, seed * 419 + k, corpus if k == 0 else [], pid == "C12") for k in range(shards)]
+    with multiprocessing.Pool(16) as pool:
+        outs = pool.map(_belt_worker, jobs)
+    res = dict(evaluations=0, distinct_nontrivial=0, samples=[], traces=0, disagreements=[], violations=[], known=[])
+    tags, ops = collections.Counter(), collections.Counter()
+    best = {}
+    for o in outs:
+        res["evaluations"] += o["evals"]; res["traces"] += o["evals"]; res["distinct_nontrivial"] += o["sigs"]
+        res["disagreements"] += o["dis"]; res["samples"] += o["samples"]
+        tags.update(o["tags"]); ops.update(o["ops"])
+        for v in o["viol"]:
+            k = v["message"].split("]")[0]
+            if k not in best or len(json.dumps(v["case"])) < len(json.dumps(best[k]["case"])):
+                best[k] = v
+    res["violations"] = [best[k] for k in sorted(best)]
+    res["rule"] = ("random scenarios on the real ConveyorBelt classes: continuous (item length 0.5-2, speed 0.5-2, 1-5 item lengths long) "
+                   "and slotted (capacity 1-5, slot delay 0.5-2), accumulating or not, 1-2 producer processes with regular / bursty / "
+                   "irregular (quarter-unit) arrival gaps, one consumer with start time 0-7 and service times 0-5 (so short, long and "
+                   "repeated stalls, stalls beginning while items enter, removals and arrivals in one instant); every admission test, "
+                   "put, interrupt, resume, arrival at the exit and get recorded in kernel order and replayed on the extracted model "
+                   "TBelt (legality of every step, admission outcomes, items on the belt and at the exit after every step); the C12 / "
+                   "C13 clauses evaluated on the implementation's own times; distinct = distinct (kind, mode, situations, step-kind sequence)"
+                   + ("; plus a stream of continuous belts whose length is not a whole number of item lengths (known finding)" if pid == "C12" else ""))
+    res["distribution"] = dict(runs_reaching=dict(tags), recorded_steps=dict(ops))
+    res["domain"] = "ConveyorBelt (continuous, slotted) over both BeltStore classes, driven through reserve_put/put/reserve_get/get"
+    return res
+
+
 # ------------------------------------------------------------------ factory-level properties (L2)
 # which kinds of canonical output lines concern which property (first differing line of a disagreement)
 F_LINES = {
@@ -446,10 +541,46 @@ def run_c19(pid, tier, seed):
 
 def replay(pid, path):
     obj = json.load(open(path))
-    case = obj.get("case")
+    case = obj.get("case") or next((d.get("case") for d in obj.get("correspondence_disagreements", []) if d.get("case")), None)
     if not case:
-        print("replay file carries no case (kind=%s): %s" % (obj.get("kind"), json.dumps(obj)[:600]))
-        return 0
+        print("replay file carries no case (kind=%s): %s" % (obj.get("kind"), json.dumps(obj)[:1500]))
+        return 1 if obj.get("kind") == "no-failing-input-found" else 0
+    model = case.get("model")
+    if model == "tbelt":
+        r = belt.run_batch([case])[0]
+        for o, ob, ml in zip(r["ops"], r["obs"], r["model"]):
+            print(o, "impl", ob, "model", ml)
+        v = [x for x in belt.oracle(case, r) if x[0] == pid]
+        print("items:", r["items"], "crash:", r["crash"]); print("oracle:", v, "first disagreement:", r["dis"])
+        return 1 if v or r["dis"] else 0
+    if model == "tfleet":
+        r = tfleet.run_batch([case])[0]
+        for o, a, b in zip(r["micro"], r["impl"], r["model"]):
+            print(o, "\n   impl ", a, "\n   model", b)
+        v = tfleet.oracle(case, r["micro"], r["impl"])
+        print("oracle:", v, "first disagreement:", r["dis"])
+        return 1 if v or r["dis"] else 0
+    if model == "tbuffer":
+        r = tbuffer.run_batch([case])[0]
+        for o, a, b in zip(r["micro"], r["impl"], r["model"]):
+            print(o, "\n   impl ", a, "\n   model", b)
+        v = tbuffer.oracle(case, r["micro"], r["impl"], r["draws"])
+        print("oracle:", v, "first disagreement:", r["dis"])
+        return 1 if v or r["dis"] else 0
+    if "nodes" in case:
+        if case.get("model_skip"):
+            r = dict(case=case, impl=factory.run_impl(case), model=[], dis=None)
+        else:
+            r = factory.run_batch([case])[0]
+        for l in r["impl"]:
+            print("impl ", l)
+        v = [x for x in factory_oracle.check(case, r["impl"]) if x[0] == pid]
+        print("oracle:", v, "first disagreement:", r["dis"])
+        return 1 if v or r["dis"] else 0
+    if model == "storeq":
+        r = storeq.run_batch([case])[0]
+        print(json.dumps({k: r[k] for k in r if k != "case"}, default=str)[:4000])
+        return 1 if r.get("dis") or r.get("viol") else 0
     r = l1.run_batch([case])[0]
     v = [x for x in store_oracle.check(case, r["micro"], r["impl"]) if x[0] == pid]
     for i, (o, a, b) in enumerate(zip(r["micro"], r["impl"], r["model"])):
@@ -482,6 +613,14 @@ SPECS = {
     "C16": dict(run=run_factory, trusted=L2_TRUST),
     "C20": dict(run=run_factory, trusted=L2_TRUST + ["crash freedom and finiteness per instant are explored (valid + invalid configuration streams), not proved"]),
     "C19": dict(run=run_c19, trusted=L2_TRUST + ["hash / identity dependence is a property of the CPython run, not of the model: it is tested (several hash seeds, allocation histories), not proved"]),
+    "C12": dict(run=run_belt, trusted=["modelled, not verified: both BeltStore classes and ConveyorBelt.put/get (travel timer with interrupt / "
+                                       "resume, admission test) re-expressed as TBelt; the SimPy kernel's contract is the legality of BReady / BIdle",
+                                       "interrupts and resumes are inputs of the model (decided by ConveyorBelt.behaviour and the pattern heuristics)",
+                                       "order under interrupts is compared run by run, proved only for uninterrupted histories",
+                                       "times are multiples of 1/4 and speeds / lengths powers of two in the harness (exact floats)"]),
+    "C13": dict(run=run_belt, trusted=["modelled, not verified: as for C12; which items are interrupted at a stall (ConveyorBelt.behaviour, "
+                                       "selective_interrupt, the accumulating pattern heuristics) is not modelled: it is compared with the "
+                                       "kinematic statement of C13 on every explored run, not proved"]),
     "C14": dict(run=run_c14, trusted=["modelled, not verified: Fleet / FleetStore classes and the SimPy kernel (its contract is the legality "
                                       "condition of FActivate / FArrive / FIdle in the timed model, checked against the real kernel by the correspondence)",
                                       "liveness half of the waiting bound ('the item does become available') rests on the kernel processing due events; "
